@@ -64,6 +64,13 @@ Definition step_holds (dir : path) (pre : fs) (st : step * step_res * fs) : bool
   frame_chk (under_env dir) pre post &&
   match stp, res with
   | SWrite l, SOk _ => layout_exact dir (le_of_inserts l) post
+  | SWrite l, SErr _ =>
+      (* writing an environment must not fail where the specified writer succeeds (e.g. a process
+         directory below an env.launch that an empty launch delta did not create) *)
+      match write_to_layer_dir spec_beh_order spec_writer_table (le_of_inserts l) dir pre with
+      | (_, Ok _) => false
+      | (_, Err _) => true
+      end
   | SRead probes, SOk outs =>
       match spec_read dir pre with
       | (_, Ok e) => probes_ok e probes outs
